@@ -195,6 +195,14 @@ func (s *Seq) guardScenario(r *simrt.Rand, extra map[string]int) string {
 	if len(lids) > 0 {
 		uuid = s.M.UUID[lids[r.Intn(len(lids))]]
 	}
+	// sometimes the directory also carries the marker of an unclean shutdown: a changed
+	// struct must still be refused as such (the corruption report must not come first
+	// and let later calls through)
+	marker := r.Chance(1, 3)
+	if marker {
+		s.W.FS.RawWrite(CollDir(s.Root, s.Cfg.Lower)+"/.dirty", nil)
+		s.stat("probe:guard-with-leftover-marker")
+	}
 	before = s.W.FS.Hash(s.Root)
 	s.W.FS.ROnly = true
 	s.W.FS.Mutations = 0
@@ -227,6 +235,9 @@ func (s *Seq) guardScenario(r *simrt.Rand, extra map[string]int) string {
 	after := s.W.FS.Hash(s.Root)
 	s.W.FS.ROnly = false
 	compatible := variant == "same" || variant == "ptrstruct"
+	if compatible && marker {
+		return variant // a compatible struct on an uncleanly shut down directory: corruption is reported, C05/C11 judge that
+	}
 	if compatible {
 		// a compatible type must not be refused (reads only are judged: the
 		// write calls above legitimately modified the directory)
